@@ -407,6 +407,17 @@ func (V6) Datagram(class string, xid uint32, nonce int, msgType int) []byte {
 	binary.BigEndian.PutUint32(nb[:], uint32(nonce))
 	m.AddOption(&dhcpv6.OptionGeneric{OptionCode: nonceOpt6, OptionData: nb[:]})
 	m.AddOption(&dhcpv6.OptionGeneric{OptionCode: tailOpt6, OptionData: Tail(nonce)})
+	// identifiers as servers put them in (behind the harness' own options): the client's identifier echoed, another
+	// client's (whose reply this is is decided by the transaction id), none; a server identifier
+	switch nonce % 5 {
+	case 0:
+		m.AddOption(dhcpv6.OptClientID(&dhcpv6.DUIDLL{HWType: 1, LinkLayerAddr: HW}))
+	case 1:
+		m.AddOption(dhcpv6.OptClientID(&dhcpv6.DUIDLL{HWType: 1, LinkLayerAddr: OtherHW}))
+		m.AddOption(dhcpv6.OptServerID(&dhcpv6.DUIDEN{EnterpriseNumber: 9, EnterpriseIdentifier: []byte{1, 2, 3}}))
+	case 2:
+		m.AddOption(dhcpv6.OptServerID(&dhcpv6.DUIDLL{HWType: 1, LinkLayerAddr: OtherHW}))
+	}
 	switch class {
 	case "wrong-xid":
 		m.TransactionID = xid6(xid ^ 0x5a0000)
